@@ -290,8 +290,8 @@ func c21Directed(to *atomic.Int32) {
 // The loop returns from pubfunc, serves thread 3 and runs its "grab the latest value" select while thread 1
 // is, with some probability, between the two selects of Update.  Only a sample of the runs is written to
 // the trace: the first c21Flagged runs a cheap heuristic flags ("thread 3 returned and nothing newer than 2
-// was published") plus every 100th run.  The heuristic only selects; TraceRepublisher decides.
-const c21Flagged = 3
+// was published") plus every 200th run.  The heuristic only selects; TraceRepublisher decides.
+const c21Flagged = 2
 
 func c21Stress(to *atomic.Int32) {
 	rng := vRand()
@@ -345,7 +345,7 @@ func c21Stress(to *atomic.Int32) {
 		if !s.finish(4) {
 			return
 		}
-		keep := r%100 == 0
+		keep := r%200 == 0
 		if suspicious {
 			nsusp++
 			if flagged < c21Flagged {
@@ -361,9 +361,9 @@ func c21Stress(to *atomic.Int32) {
 // Random schedules.
 func c21Random(to *atomic.Int32) {
 	rng := vRand()
-	runs := 60
+	runs := 40
 	if !vQuick() {
-		runs = 500
+		runs = 400
 	}
 	if n := vEnvInt("C21_RUNS", 0); n > 0 {
 		runs = n
